@@ -722,6 +722,12 @@ def eval_fit(ctx, spec):
     except Exception as e:
         import traceback
         tb = traceback.extract_tb(e.__traceback__)[-1]
+        if isinstance(e, fx['InvalidModelException']):
+            # every stored sample is a valid atmosphere (generator: redrawn otherwise), but a SUMMARY point computed from them
+            # — the per-parameter median of a multi-node temperature profile, say — need not be one; the forward model then
+            # rejects it and there is no profile / spectrum for the property to speak about: outside the quantifier
+            ctx.malformed_outcome('fit:summary-point-is-an-invalid-atmosphere:' + type(e).__name__)
+            return
         ctx.violation('fit-raises:' + sampler, 'Optimizer.fit() raised %r at %s:%d' % (e, tb.filename, tb.lineno),
                       case, dict(error=repr(e)))
         return
